@@ -54,7 +54,7 @@ func prefixConstsIn(p *core.Prog, fns []*ssa.Function) map[string]bool {
 }
 
 func runC03(p *core.Prog, r *core.Report) {
-	r.Explain = "Decides only that the search indexes are maintained consistently, not what a query returns: (R1) every key class the put side writes for an object (object id, attribute→id plain and integer, id→attribute) is a class the delete side removes; (R2) writer, deleter and query side decide 'this attribute value is an integer' with the same parser (signed256.ParseDecimal), the writer indexes an integer only when that parser accepted it, and the deleter asks the parser for EVERY attribute it removes (no path through its loop skips the integer-key clean-up); (R3) the integer value length used to build and to cut keys is one constant; (R4) filtered and unfiltered search yield only through the status check (rule shared with C01). Not covered: filter semantics, ordering, cursor continuation across pages — all functions of attribute values; no sound static argument is in reach."
+	r.Explain = "Decides only that the search indexes are maintained consistently, not what a query returns: (R1) every key class the put side writes for an object (object id, attribute→id plain and integer, id→attribute) is a class the delete side removes; (R2) writer, deleter and query side decide 'this attribute value is an integer' with the same parser (signed256.ParseDecimal), the writer indexes an integer only when that parser accepted it, and the deleter asks the parser for EVERY attribute it removes (no path through its loop skips the integer-key clean-up); (R3) the integer value length used to build and to cut keys is one constant; (R4) filtered and unfiltered search yield only through the status check (rule shared with C01); (R5) in the filter matcher a remembered integer parse is reused only for the stored value it was parsed from (the 'already parsed' flag starts false and is not carried around a loop that fetches a new stored value). Not covered: filter semantics, ordering, cursor continuation across pages — all functions of attribute values; no sound static argument is in reach."
 	put := p.Func(mb + "PutMetadataForObject")
 	del := p.Func(mb + "deleteMetadata")
 	if put == nil || del == nil {
@@ -93,6 +93,7 @@ func runC03(p *core.Prog, r *core.Report) {
 	} else {
 		ok := len(core.CallSites([]*ssa.Function{pi}, func(s core.Site) bool { return s.Name == s256+"ParseDecimal" })) == 1
 		r2.Check(ok, mb+"parseInt#parser", p.Pos(pi.Pos()), "parseInt is signed256.ParseDecimal", "metabase.parseInt no longer decides with signed256.ParseDecimal")
+		parserWrapperAgrees(p, r2, pi) // and nothing but it: no pre- or post-filter (rule shared with C05.R2)
 	}
 	nq := len(core.CallSites(p.FuncsIn("pkg/core/object"), func(s core.Site) bool {
 		return s.Name == s256+"ParseDecimal" && strings.HasPrefix(core.FuncName(s.Fn), "pkg/core/object.MetaDataKVHandler")
@@ -143,4 +144,109 @@ func runC03(p *core.Prog, r *core.Report) {
 	// ---------------- R4
 	r4 := r.Rule("C03.R4", "search yields only through the status check", 6)
 	searchStatusRule(p, r, r4)
+	// ---------------- R5 a remembered parse belongs to the value it was parsed from
+	r5 := r.Rule("C03.R5", "the filter matcher reuses a parsed integer only for the stored value it was parsed from: the 'already parsed' flag is not carried around a loop that fetches a new stored value, and starts false", 1)
+	parsedFlagNotStale(p, r, r5)
+}
+
+// parsedFlagNotStale: in the search handler, `if !parsed { v, err = ParseDecimal(string(dbVal)); parsed = err == nil }` caches the
+// integer form of dbVal. The flag must not survive a refresh of dbVal.
+func parsedFlagNotStale(p *core.Prog, r *core.Report, h *core.RuleH) {
+	n := 0
+	for _, fn := range p.FuncsIn("pkg/core/object") {
+		if !strings.HasPrefix(core.FuncName(fn), "pkg/core/object.MetaDataKVHandler") {
+			continue
+		}
+		for _, ps := range core.CallSites([]*ssa.Function{fn}, func(s core.Site) bool { return s.Name == s256+"ParseDecimal" }) {
+			// the cell the parsed text is loaded from
+			var cell ssa.Value
+			walkOperands(ps.Call.Common().Args[0], 4, func(x ssa.Value) {
+				if u, ok := x.(*ssa.UnOp); ok && u.Op.String() == "*" && cell == nil {
+					cell = u.X
+				}
+			})
+			call, _ := ps.Call.(*ssa.Call)
+			if cell == nil || call == nil || call.Referrers() == nil {
+				continue
+			}
+			// parsedOK = (err == nil)
+			var parsedOK ssa.Value
+			for _, ref := range *call.Referrers() {
+				ex, ok := ref.(*ssa.Extract)
+				if !ok || ex.Index != 1 || ex.Referrers() == nil {
+					continue
+				}
+				for _, u := range *ex.Referrers() {
+					if bo, isB := u.(*ssa.BinOp); isB && bo.Op.String() == "==" {
+						if c, isC := bo.Y.(*ssa.Const); isC && c.IsNil() {
+							parsedOK = bo
+						}
+					}
+				}
+			}
+			if parsedOK == nil {
+				continue
+			}
+			// phi family fed by parsedOK
+			fam := map[*ssa.Phi]bool{}
+			var grow func(v ssa.Value)
+			grow = func(v ssa.Value) {
+				if v.Referrers() == nil {
+					return
+				}
+				for _, ref := range *v.Referrers() {
+					if ph, ok := ref.(*ssa.Phi); ok && !fam[ph] {
+						fam[ph] = true
+						grow(ph)
+					}
+				}
+			}
+			grow(parsedOK)
+			if len(fam) == 0 {
+				continue // parsed every time, nothing remembered
+			}
+			n++
+			id := core.FuncName(fn) + "#remembered-parse"
+			pos := p.InstrPos(ps.Call)
+			bad := ""
+			for ph := range fam {
+				for _, e := range ph.Edges {
+					if e == parsedOK {
+						continue
+					}
+					if q, isPhi := e.(*ssa.Phi); isPhi && fam[q] {
+						continue
+					}
+					if c, isC := e.(*ssa.Const); isC && c.Value != nil && c.Value.String() == "false" {
+						continue
+					}
+					bad = "the 'already parsed' flag can become true from something else than a successful parse"
+				}
+				hb := ph.Block()
+				isHdr := false
+				for _, pr := range hb.Preds {
+					if hb.Dominates(pr) {
+						isHdr = true
+					}
+				}
+				if !isHdr {
+					continue
+				}
+				for _, b := range fn.Blocks {
+					if !(hb.Dominates(b) && (b == hb || reaches(b, hb))) {
+						continue
+					}
+					for _, in := range b.Instrs {
+						if st, isSt := in.(*ssa.Store); isSt && st.Addr == cell {
+							bad = "the 'already parsed' flag is carried around the loop at " + p.Pos(hb.Instrs[0].Pos()) + " in which a new stored value is fetched (" + p.InstrPos(st) + "): the integer parsed from the previous attribute's value is compared with this attribute's filter"
+						}
+					}
+				}
+			}
+			h.Check(bad == "", id, pos, "the flag starts false and is never carried across a refresh of the stored value", bad)
+		}
+	}
+	if n == 0 {
+		h.OKTrivial("pkg/core/object.MetaDataKVHandler#remembered-parse", "-", "the handler remembers no parse: every comparison parses the current value")
+	}
 }
